@@ -238,13 +238,13 @@ func (ex *exec) binop(op token.Token, t types.Type, x, y value) value {
 			case token.NEQ:
 				return fromBoolTerm(tNot(tEq(a, b)))
 			case token.LSS:
-				return fromBoolTerm(tBVCmp("bvult", a, b))
+				return fromBoolTerm(tIntLt(a, b))
 			case token.GTR:
-				return fromBoolTerm(tBVCmp("bvugt", a, b))
+				return fromBoolTerm(tIntLt(b, a))
 			case token.LEQ:
-				return fromBoolTerm(tBVCmp("bvule", a, b))
+				return fromBoolTerm(tNot(tIntLt(b, a)))
 			case token.GEQ:
-				return fromBoolTerm(tBVCmp("bvuge", a, b))
+				return fromBoolTerm(tNot(tIntLt(a, b)))
 			case token.ADD:
 				return symv{ex.freshVar("uidconcat", sString)}
 			}
@@ -339,6 +339,9 @@ func (ex *exec) binop(op token.Token, t types.Type, x, y value) value {
 			o := map[token.Token]string{token.LSS: "lt", token.LEQ: "le", token.GTR: "gt", token.GEQ: "ge"}[op]
 			if signed {
 				o = "bvs" + o
+				if r := ex.wrapCompare(o, a, b); r != nil {
+					return fromBoolTerm(r)
+				}
 			} else {
 				o = "bvu" + o
 			}
